@@ -152,6 +152,9 @@ THRESH_SPECS = (
     # non-integer thresholds (the stored samples are integers, the baseline has a fractional part)
     {"amp": [1.5, 2.25, 0.5], "hon": 0},
     {"amp": [1, 1, 1], "hon": [0.75, 1.25, 1.0], "rms": 2.0},
+    # mixed forms: one threshold per channel (integers), the other one number (not an integer)
+    {"amp": [2, 3, 1], "hon": 1.25, "rms": 2.0},
+    {"amp": 2.5, "hon": [1, 2, 0], "rms": 2.0},
 )
 EXTS = ((0, 0), (1, 2), (2, 1), (0, None), (None, None), (None, 0), (3, 7))  # None -> L
 
